@@ -253,6 +253,24 @@ def case_foreign_file(ctx):
     ctx.case("parquet.foreign_file", s.desc(), real, None,
              {"ok": {"cls": "NestedFrame", "dtype_nested": True, "rows": weak_rows(s.content["rows"]), "id": list(range(n))}},
              hyp=s.hyp, features=s.features, nontrivial=s.nontrivial())
+    # a file written from a pandas frame by plain pyarrow: it carries pandas metadata, and the reader restores the
+    # frame's own (non-default) index — every nested table stays with its label and base value
+    if n >= 2:
+        labels = gen.rand_labels(rng, n, kind=rng.choice(["int", "str"]), pattern="unique_unsorted")
+        pdf = pd.DataFrame({"id": np.arange(n, dtype=np.int64),
+                            "lc": pd.Series(s.ca, dtype=pd.ArrowDtype(s.ca.type), index=pd.Index(labels))}, index=pd.Index(labels))
+        buf2 = io.BytesIO()
+        pq.write_table(pa.Table.from_pandas(pdf), buf2)
+        buf2.seek(0)
+
+        def with_index():
+            r = read_parquet(buf2)
+            return {"cls": type(r).__name__, "dtype_nested": isinstance(r["lc"].dtype, NestedDtype), "index": export.labels(r.index),
+                    "rows": weak_rows(export.rows_view(r["lc"].array)), "id": [int(v) for v in r["id"]]}
+        ctx.case("parquet.foreign_file.pandas_index", {**s.desc(), "labels": labels}, call_real(with_index), None,
+                 {"ok": {"cls": "NestedFrame", "dtype_nested": True, "index": [export.label(l) for l in labels],
+                         "rows": weak_rows(s.content["rows"]), "id": list(range(n))}},
+                 hyp=s.hyp, features=s.features + ("pandas_index",), nontrivial=s.nontrivial())
     # reject_nesting is respected
     buf.seek(0)
     real = call_real(lambda: str(read_parquet(buf, reject_nesting="lc")["lc"].dtype).startswith("struct"))
